@@ -91,7 +91,7 @@ def _emit_access(c):
     pass
 
 
-c = contract(E + "_process_activate").props('C03', 'C04', 'C08', 'C09')
+c = contract(E + "_process_activate").props('C03', 'C04', 'C08', 'C09', 'C13')
 c.args(self=ENGINE, payload=('obj', 'kmip.core.messages.payloads.activate.ActivateRequestPayload',
                              {'unique_identifier': UID}))
 c.raises(KMIP_ERRORS)
@@ -112,7 +112,7 @@ REVOKE_PAYLOAD = ('obj', 'kmip.core.messages.payloads.revoke.RevokeRequestPayloa
                                                       'revocation_message': 'opaque'})),
                    'compromise_occurrence_date': 'opaque'})
 
-c = contract(E + "_process_revoke").props('C03', 'C04', 'C08', 'C09')
+c = contract(E + "_process_revoke").props('C03', 'C04', 'C08', 'C09', 'C13')
 c.args(self=ENGINE, payload=REVOKE_PAYLOAD)
 c.raises(KMIP_ERRORS)
 # stored objects are never in a Destroyed state (Destroy deletes the row in the same transaction)
@@ -125,7 +125,7 @@ c.trace("no-effect-before-raise", t_no_effect_before_raise)
 c.trace("single-transaction", t_single_transaction)
 c.trace("access-controlled", make_access_predicate(['REVOKE']))
 
-c = contract(E + "_process_destroy").props('C03', 'C04', 'C07', 'C08', 'C09')
+c = contract(E + "_process_destroy").props('C03', 'C04', 'C07', 'C08', 'C09', 'C13')
 c.args(self=ENGINE, payload=('obj', 'kmip.core.messages.payloads.destroy.DestroyRequestPayload',
                              {'unique_identifier': UID}))
 c.raises(KMIP_ERRORS)
@@ -181,7 +181,7 @@ GATES = {
     "_process_mac": (PL + "mac.MACRequestPayload", {"mac": ("MAC_GENERATE", None, 1)}),
 }
 for hname, (pcls, gate) in GATES.items():
-    c = contract(E + hname).props('C03', 'C04', 'C08', 'C09')
+    c = contract(E + hname).props('C03', 'C04', 'C08', 'C09', 'C13')
     uidf = {'_unique_identifier': UID} if hname == '_process_mac' else \
         {'_unique_identifier': ('lazyopt', ('obj', 'kmip.core.primitives.TextString', {'value': 'str'}))}
     c.args(self=ENGINE, payload=('payload', pcls, uidf))
@@ -281,7 +281,7 @@ def make_creator_predicates(n_objects):
 
 for hname, pcls, nobj in [("_process_create", PL + "create.CreateRequestPayload", 1),
                           ("_process_create_key_pair", PL + "create_key_pair.CreateKeyPairRequestPayload", 2)]:
-    c = contract(E + hname).props('C03', 'C07', 'C08', 'C09')
+    c = contract(E + hname).props('C03', 'C07', 'C08', 'C09', 'C13')
     # the decoder rejects a Create request without an object type (payload invariant)
     extra = {'_object_type': ('obj', 'kmip.core.primitives.Base',
                               {'value': ('enum', 'kmip.core.enums.ObjectType')})} \
